@@ -219,7 +219,14 @@ def script(draw, p, depth=0):
             it = {'n': None, 'm': [], 'x': draw(text_value(p)), 'r': None, 'sc': False}
             if getattr(p, 'text_only_fields', 0) and draw(st.floats(0, 1)) < p.text_only_fields:
                 # a text-only item whose text carries a field keeps its children (they are printed in place of the first field)
-                it['x'] = [draw(st.sampled_from(['pre', 'a b', '[', '(x'])), ['f', draw(st.integers(0, 2)), None], draw(st.sampled_from(['post', ']', ' y)']))]
+                it['x'] = [draw(st.sampled_from(['pre', 'a b', '[', '(x'])), ['f', draw(st.integers(0, 2)), None]]
+                # optionally a second field with a visible placeholder, directly after the first one or after some text
+                second = draw(st.sampled_from([None, None, 'adjacent', 'apart']))
+                if second == 'apart':
+                    it['x'].append(' mid ')
+                if second:
+                    it['x'].append(['f', draw(st.integers(0, 3)), draw(st.sampled_from(['foo', 'rest']))])
+                it['x'].append(draw(st.sampled_from(['post', ']', ' y)'])))
                 it['kids'] = True
         else:
             it = draw(element(p))
